@@ -12,7 +12,7 @@ Import ListNotations.
 Local Open Scope N_scope.
 
 (* ---------- bytes, units ---------- *)
-Definition byte := N.                                   (* well-formed when < 256 *)
+Notation byte := N (only parsing).                       (* well-formed when < 256 *)
 Inductive unit_ := UB (b : byte) | UEoi.
 
 Definition ranges := list (N * N).                      (* inclusive *)
@@ -165,10 +165,14 @@ Fixpoint scan (d : dfa) (q : qid) (rest : list byte) (k : N) (best : ctx) : ctx 
 Inductive action := AEmit | ASkip | AErr | ADefaultErr.   (* what the leaf body decided *)
 Inductive item := Item (ok : bool) (l : option leaf) (s e : N).
 
+(* how a call of next() ended *)
 Inductive outcome :=
 | Yield (it : item) (e : N)          (* Some(item); token_start..token_end = span of item, end = e *)
 | Finished (s e : N)                 (* None; span() afterwards *)
 | Broken.                            (* Stuck / Diverged / out of fuel *)
+
+(* a region of the input: an item, or a match that was skipped *)
+Inductive region := RItem (it : item) | RSkip (l : leaf) (s e : N).
 
 Definition nmax (a b : N) := if a <? b then b else a.
 
@@ -180,38 +184,42 @@ Section Lex.
   Variable w : list byte.
   Variable isprefix : bool.
 
-  (* one call of Iterator::next with token_end = start; fuel bounds consecutive skips *)
-  Fixpoint next_from (fuel : nat) (start : N) : outcome :=
+  (* one call of Iterator::next with token_end = start; fuel bounds consecutive skips.
+     Returns the regions skipped on the way and how the call ended. *)
+  Fixpoint next_from (fuel : nat) (start : N) : list region * outcome :=
     match fuel with
-    | O => Broken
+    | O => ([], Broken)
     | S f =>
         match attempt isprefix start (skipn (N.to_nat start) w) with
         | Acted None off =>
-            let e := fb (nmax off (start + 1)) in Yield (Item false None start e) e
+            let e := fb (nmax off (start + 1)) in ([], Yield (Item false None start e) e)
         | Acted (Some (l, e)) _ =>
             match act l start e with
-            | (AEmit, bump) => Yield (Item true (Some l) start (e + bump)) (e + bump)
-            | (ASkip, bump) => next_from f (e + bump)
-            | (AErr, bump) | (ADefaultErr, bump) => Yield (Item false (Some l) start (e + bump)) (e + bump)
+            | (AEmit, bump) => ([], Yield (Item true (Some l) start (e + bump)) (e + bump))
+            | (ASkip, bump) => let (sk, o) := next_from f (e + bump) in (RSkip l start (e + bump) :: sk, o)
+            | (AErr, bump) | (ADefaultErr, bump) => ([], Yield (Item false (Some l) start (e + bump)) (e + bump))
             end
-        | RetNone _ => Finished start start
-        | Stuck | Diverged => Broken
+        | RetNone _ => ([], Finished start start)
+        | Stuck | Diverged => ([], Broken)
         end
     end.
 
   (* iterate next() until None; fuel bounds the number of items *)
-  Fixpoint lex_from (fuel : nat) (start : N) : list item * outcome :=
+  Fixpoint lex_from (fuel : nat) (start : N) : list region * outcome :=
     match fuel with
     | O => ([], Broken)
     | S f =>
         match next_from (S (length w)) start with
-        | Yield it e => let (its, fin) := lex_from f e in (it :: its, fin)
-        | o => ([], o)
+        | (sk, Yield it e) => let (rs, fin) := lex_from f e in (sk ++ RItem it :: rs, fin)
+        | (sk, o) => (sk, o)
         end
     end.
 
-  Definition lex_all : list item * outcome := lex_from (S (S (length w))) 0.
+  Definition lex_all : list region * outcome := lex_from (S (S (length w))) 0.
 End Lex.
+
+Fixpoint items_of (rs : list region) : list item :=
+  match rs with [] => [] | RItem it :: r => it :: items_of r | RSkip _ _ _ :: r => items_of r end.
 
 Definition hops_of (g : graph) : nat := S (S (PositiveMap.cardinal (g_states g))).
 
